@@ -695,7 +695,10 @@ ACC_VOCAB = [
 # the floating-point operations of the body (structural: the operator is replaced by the operation macro)
 ACC_OP_RULES = [
     R(r"m_grid\.nodes_areas\(([^()]*)\) \* src_arr\(([^()]*)\)", r"SW_MUL_LOCAL(m_grid.nodes_areas(\1), src_arr(\2))", 1),
-    R(r"acc\.flat\(([^()]*)\) \* m_receivers_weight\(([^()]*)\)", r"SW_MUL_W(acc.flat(\1), m_receivers_weight(\2))", 1),
+    # the transfer product: any scalar left operand (a cell read or a local holding one) times the slot's weight
+    V(r"(acc\.flat\([^()]*\)|\b[a-z_]\w*) \* m_receivers_weight\(([^()]*)\)", r"SW_MUL_W(\1, m_receivers_weight(\2))"),
+    V(r"const auto (\w+) = acc\.flat\(", r"const double \1 = acc.flat("),
+    V(r"\bcontinue;", "return; /* `continue` of the outlined loop body */"),
     R(r"acc\.flat\((\w+)\) \+= ([^;]*);", r"acc.flat(\1) = SW_ADD(acc.flat(\1), \2);", None),
 ]
 
@@ -1159,3 +1162,10 @@ PROPS = {
                     "are not covered by this module.",
     ),
 }
+
+
+# native replay: the routing driver's oracles cover C01/C02 (tilt), C03, C06, C19
+for _lst in GROUPS.values():
+    for _g in _lst:
+        if not getattr(_g, "replay", None):
+            _g.replay = "replay/routing.cpp"
